@@ -57,6 +57,15 @@ def build(a):
             {k: payload(a['pl'], x) for k, x in zip(a['ks'], a['src'])},
             immutable_warranty=a['iw'])
     ds = build(a['in'])
+    return build_on(a, ds)
+
+
+def build_on(a, ds):
+    """The operation of the API term `a` applied to the dataset `ds`."""
+    op = a['op']
+    if op == 'apply':
+        ag = a['ag']
+        return ds.apply(lambda d: build_on(ag, d), lazy=a['lazy'])
     if op in ('concat', 'intersperse', 'zip', 'keyzip'):
         other = build(a['in2'])
         if op == 'concat':
